@@ -408,7 +408,30 @@ fn main() {
     let (specs, specs_more) = plan(ctx.tier);
     run_cases(&ctx, &replay, &mut rep, "scenarios", specs.len() as u64, |rng, rep, i| scenario_case(rng, rep, i, &specs[i as usize]));
     if std::env::var_os("C02_DEBUG").is_some() { eprintln!("DEBUG scenarios done at {:.1}s", ctx.elapsed_s()); }
-    // ---- workload 2: generated classes (same generator as C01) x layouts, plain and renamed
+    // ---- workload 2: javac corpus, as compiled and re-emitted
+    let corpus = cf::corpus::load(&ctx.verif_dir);
+    run_cases(&ctx, &replay, &mut rep, "corpus", corpus.len() as u64, |rng, rep, i| {
+        let (name, bytes) = &corpus[i as usize];
+        let m = match parse::parse(bytes) { Ok(m) => m, Err(e) => { eprintln!("HARNESS-ERROR independent parser rejects corpus class {name}: {e}"); std::process::exit(3); } };
+        rep.count("corpus.classes");
+        let feats = features::features(&m);
+        for f in &feats { let (set, member) = f.split_once('.').unwrap_or(("misc", f)); rep.seen(&format!("corpus.{set}"), member); }
+        rep.nontrivial(features::fingerprint(&feats) ^ 0xc0);
+        let info = json!({"corpus": name});
+        judge_source(rep, &format!("corpus {name}"), bytes, &info, Some(rng.next_u64()), None);
+        let l = emit::Layout::random(rng.next_u64());
+        if let Ok(b2) = emit::emit(&m, &l) { rep.count("corpus.relayouts"); judge_source(rep, &format!("corpus {name} re-emitted (random seed={})", l.seed), &b2, &info, None, None); }
+    });
+
+    // ---- workload 3 (thorough): more scenario rounds, until 55% of the wall-clock budget is used
+    {
+        let mut c2 = ctx.clone();
+        c2.budget = ctx.budget.mul_f64(0.55);
+        run_cases(&c2, &replay, &mut rep, "scenarios-more", specs_more.len() as u64, |rng, rep, i| scenario_case(rng, rep, i, &specs_more[i as usize]));
+    }
+    if std::env::var_os("C02_DEBUG").is_some() { eprintln!("DEBUG scenarios-more done at {:.1}s", ctx.elapsed_s()); }
+
+    // ---- workload 4: generated classes (same generator as C01) x layouts, plain and renamed
     let cfg = gen::GenCfg::default();
     let big_cfg = gen::GenCfg { max_insns: 400, max_methods: 3, ..gen::GenCfg::default() };
     let n = ctx.tier.pick(2_500, 160_000);
@@ -437,21 +460,6 @@ fn main() {
     });
 
     if std::env::var_os("C02_DEBUG").is_some() { eprintln!("DEBUG generated done at {:.1}s", ctx.elapsed_s()); }
-    // ---- workload 3: javac corpus, as compiled and re-emitted
-    let corpus = cf::corpus::load(&ctx.verif_dir);
-    run_cases(&ctx, &replay, &mut rep, "corpus", corpus.len() as u64, |rng, rep, i| {
-        let (name, bytes) = &corpus[i as usize];
-        let m = match parse::parse(bytes) { Ok(m) => m, Err(e) => { eprintln!("HARNESS-ERROR independent parser rejects corpus class {name}: {e}"); std::process::exit(3); } };
-        rep.count("corpus.classes");
-        let feats = features::features(&m);
-        for f in &feats { let (set, member) = f.split_once('.').unwrap_or(("misc", f)); rep.seen(&format!("corpus.{set}"), member); }
-        rep.nontrivial(features::fingerprint(&feats) ^ 0xc0);
-        let info = json!({"corpus": name});
-        judge_source(rep, &format!("corpus {name}"), bytes, &info, Some(rng.next_u64()), None);
-        let l = emit::Layout::random(rng.next_u64());
-        if let Ok(b2) = emit::emit(&m, &l) { rep.count("corpus.relayouts"); judge_source(rep, &format!("corpus {name} re-emitted (random seed={})", l.seed), &b2, &info, None, None); }
-    });
-
     let mut meta = Meta::new("exploration", "three workloads: (1) large-method scenarios built at exact byte distances with the reference layout (single jumps of every kind forward/backward at offsets +-32765..+-32770, chains of 2..50 dependent jumps, random clusters of jumps near the limit with switches and table anchors around them, methods of exactly 65533..65535 bytes and methods stretched past 65535, pools of exactly 65534/65535 slots, ldc around index 255/256); far conditional branches are made reader-reachable by pool pressure (source keeps the constant at the pool front, >= 256 entries are used by earlier members); (2) the C01 generator's classes under canonical and random layouts; (3) the javac corpus as compiled and re-emitted. Every tree is judged as read and after dukebox's remap with a seeded injective renamer. A case is non-trivial if the class has a field or a method with code; distinct = distinct feature-set fingerprint (generated/corpus) or distinct (scenario kind, writer attempts, number of long-form jumps, trampolines, outcome, code size bucket)")
         .assume("the independent parser/emitter (harness/cf) implement JVMS chapter 4 correctly (cross-checked against each other on every case and against javac output); the reference layout implements the JVMS instruction lengths (cross-checked against the emitter on every scenario)")
         .assume("a refusal 'code too large' is accepted when the method does not fit 65535 bytes if every one-slot ldc needs a 2-byte index (the writer's pool numbering is its own business); a refusal 'pool too large' is never accepted for a tree as read (its constants fit the source pool) and not judged after renaming when the source pool had >= 32768 slots")
@@ -477,7 +485,7 @@ fn main() {
         meta.oblige("renamed trees judged", rep.get("writes.renamed") >= 100);
         meta.oblige("corpus classes judged", rep.get("corpus.classes") >= 100);
         meta.oblige("at least 150 opcode families in the generated classes, locals in all three index classes", rep.seen_n("insn") >= 150 && rep.seen_n("local") >= 3);
-        meta.oblige("at most 10% of the scenarios could not be generated or read", (rep.get("scenario.generation_failed") + rep.get("scenario.reader_changed_the_model")) * 10 <= specs.len() as u64 && rep.get("scenario.tree_equals_model") > 0);
+        meta.oblige("at most 10% of the scenarios could not be generated or read", (rep.get("scenario.generation_failed") + rep.get("scenario.reader_changed_the_model")) * 10 <= (specs.len() + specs_more.len()) as u64 && rep.get("scenario.tree_equals_model") > 0);
     }
     std::process::exit(finish(&ctx, rep, meta));
 }
